@@ -560,6 +560,17 @@ func (sh *SessionHandler) rpcWrite(s *session, log *zap.Logger) (contracts.Usage
 		return contracts.Usage{}, fmt.Errorf("failed to read write request: %w", err)
 	}
 
+	if req.MerkleProof {
+		// diff proofs do not support update actions
+		for _, action := range req.Actions {
+			if action.Type == rhp2.RPCWriteActionUpdate {
+				err := errors.New("failed to validate write actions: update actions do not support Merkle proofs")
+				s.t.WriteResponseErr(err)
+				return contracts.Usage{}, err
+			}
+		}
+	}
+
 	remainingDuration := uint64(s.contract.Revision.WindowEnd) - currentHeight
 	// validate the requested actions
 	oldSectors := s.contract.Revision.Filesize / rhp2.SectorSize
